@@ -334,7 +334,13 @@ func runProp(pd *propDef, tier, repo, verif string, seed int) int {
 		ev.Assumptions = []string{}
 	}
 	b, _ := json.MarshalIndent(ev, "", " ")
-	evPath := filepath.Join(verif, "evidence", pd.ID+".json")
+	// VERIF_EVIDENCE_DIR redirects the evidence of experiments (seeded changes applied to
+	// /repo by tools/seedcheck.sh) away from /verif/evidence, which describes the real tree
+	evDir := filepath.Join(verif, "evidence")
+	if d := os.Getenv("VERIF_EVIDENCE_DIR"); d != "" {
+		evDir = d
+	}
+	evPath := filepath.Join(evDir, pd.ID+".json")
 	os.MkdirAll(filepath.Dir(evPath), 0o755)
 	if err := os.WriteFile(evPath, append(b, '\n'), 0o644); err != nil {
 		fmt.Fprintf(os.Stderr, "cannot write evidence: %v\n", err)
@@ -346,7 +352,7 @@ func runProp(pd *propDef, tier, repo, verif string, seed int) int {
 		fmt.Println(l)
 	}
 	if nviol > 0 {
-		rp := filepath.Join(verif, "evidence", pd.ID+".report.txt")
+		rp := filepath.Join(evDir, pd.ID+".report.txt")
 		os.WriteFile(rp, []byte(strings.Join(report, "\n")+"\n"), 0o644)
 		for _, r := range report {
 			fmt.Println(r)
